@@ -137,5 +137,12 @@ theorem dot11_writesOnly (d : Dot11) (hw : d.WF) (hf : d.Fits) : WritesOnly (sem
   · simp only [sem]
     rw [List.drop_append_of_le_length (by omega), List.drop_eq_nil_of_le (by omega), List.nil_append]
 
+/-- **C02 for parsed packets**: whatever a Dot11 parsing constructor accepted (from a buffer below 4 GiB) serializes
+    into exactly `header_size()` bytes without touching its payload -/
+theorem dot11_parsed_writesOnly (cls : String) (lay : Layout) (b : Bytes) (d : Dot11) (i : Inner)
+    (hb : b.length < 4294967296) (h : parseWith cls lay b = .ok (d, i)) : WritesOnly (sem d) := by
+  obtain ⟨hwf, _, hws⟩ := dot11_parse_WF cls lay b d i h
+  exact dot11_writesOnly d hwf (by unfold Fits; omega)
+
 end Dot11
 end Tins.Wire.Wifi
